@@ -251,7 +251,7 @@ theorem wfFinish_sim (fixWf : Bool) (c : Bytes) (bd : Digest) (rw rf : ParseRes)
 
 theorem newWarcFieldsBlock_sim (o : Opts) (c : Bytes) (fault : Bool) (bd : Digest) :
     Sim (newWarcFieldsBlock (o.uni .warn) c fault bd) (newWarcFieldsBlock (o.uni .fail) c fault bd) := by
-  unfold newWarcFieldsBlock
+  rw [newWarcFieldsBlock_not_ignore _ _ _ _ (by simp [uni_syn]), newWarcFieldsBlock_not_ignore _ _ _ _ (by simp [uni_syn])]
   simp only [uni_syn, uni_blk, uni_fixWf]
   apply Sim.bind (Sim.condSite _ _)
   intro _
